@@ -196,7 +196,19 @@ def rule_partial(rep):
                     if x.get("k") == "if" and nbit(x["c"]) in ("(%s > %s)" % (f_in, fr), "(%s < %s)" % (fr, f_in)):
                         asg = [y for y in walk(x["then"]) if y.get("k") == "assign" and is_path(y["l"], f_in) and is_path(y["r"], fr)]
                         clamp_ok = len(asg) == 1
+                # the copy may only be skipped when there is nothing to copy: a guard around it must be `frames_in > 0` (a partial input of one
+                # frame is inside the property's range)
+                guard_ok = True
                 for x in walk(lp["body"]):
+                    if x.get("k") == "if" and any(y.get("k") == "mcall" and y["name"] == "copy_from_slice" for y in walk(x["then"])):
+                        if nbit(x["c"]) not in ("(%s > i:0)" % f_in, "(i:0 < %s)" % f_in, "(%s != i:0)" % f_in, "(%s >= i:1)" % f_in, "(i:0 != %s)" % f_in):
+                            guard_ok = False
+                    elif x.get("k") == "if" and x.get("else") is not None and isinstance(x["else"], dict) \
+                            and any(y.get("k") == "mcall" and y["name"] == "copy_from_slice" for y in walk(x["else"])):
+                        guard_ok = False
+                for x in walk(lp["body"]):
+                    if not guard_ok:
+                        break
                     if x.get("k") == "mcall" and x["name"] == "copy_from_slice":
                         d = x["recv"]
                         s_ = x["args"][0]
